@@ -46,7 +46,7 @@ ASSUMPTIONS = [
     "sampling, not enumeration",
 ]
 
-TITLES = ["Item", "Thing", "thing", "Thing Model", "ThingModel", "item", "Node"]
+TITLES = ["Item", "Thing", "thing", "Thing Model", "ThingModel", "item", "Node", "404", "!!!", "日本語", "item 2"]
 PROPS = ["a", "b", "c", "value", "name", "x-1", "x_1", "class", "id", "$ref_like", "1st"]
 
 
@@ -430,7 +430,7 @@ def disagreements(results):
     first = results[0]["docs"]
     for other in results[1:]:
         for doc_id, res in other["docs"].items():
-            for part in ("py", "json", "names"):
+            for part in ("py", "json", "names", "pe"):
                 if res.get(part) != first[doc_id].get(part):
                     bad.setdefault(doc_id, set()).add(part)
     return {k: sorted(v) for k, v in bad.items()}
@@ -547,7 +547,7 @@ def replay(doc, path):
     first = res[0]["docs"].get(target)
     differing = [
         part
-        for part in ("py", "json", "names")
+        for part in ("py", "json", "names", "pe")
         if any(r["docs"].get(target, {}).get(part) != (first or {}).get(part) for r in res[1:])
     ]
     if not differing:
@@ -810,12 +810,17 @@ def _check(tier, seed, n_docs, configs, orders_reachable, n_cli, n_cli_conf, wor
     if t_code == 2:
         return 2
     exit_code = max(exit_code, t_code)
-    coverage["parts"] = {"C09T": t_cov}
-    coverage["evaluations"] += t_cov["evaluations"]
-    coverage["distinct_nontrivial"] += t_cov["distinct_nontrivial"]
-    coverage["rule"] = "[P] " + RULE + " || [C09T] " + t_cov["rule"]
-    coverage["samples"] = coverage["samples"] + t_cov["samples"][:1]
-    coverage["logical_steps"] += t_cov["logical_steps"]
+    s_code, s_cov, s_reported = driver.check_part(PROP, "C09S", tier)
+    if s_code == 2:
+        return 2
+    exit_code = max(exit_code, s_code)
+    t_reported += s_reported
+    coverage["parts"] = {"C09T": t_cov, "C09S": s_cov}
+    coverage["evaluations"] += t_cov["evaluations"] + s_cov["evaluations"]
+    coverage["distinct_nontrivial"] += t_cov["distinct_nontrivial"] + s_cov["distinct_nontrivial"]
+    coverage["rule"] = "[P] " + RULE + " || [C09T] " + t_cov["rule"] + " || [C09S] " + s_cov["rule"]
+    coverage["samples"] = coverage["samples"] + t_cov["samples"][:1] + s_cov["samples"][:1]
+    coverage["logical_steps"] += t_cov["logical_steps"] + s_cov["logical_steps"]
     wall = time.time() - t0
     from sim import c09t
 
